@@ -62,7 +62,9 @@ func c09Cold(c *ctx) {
 	first := c.shard % nCold
 	cd, cp := coldCall(first) // the first library call of this process
 	rows := [][]interface{}{}
-	for id := 0; id < nCold; id++ {
+	// every other call first, then the same call again: now it is anything but the first one
+	for k := 1; k <= nCold; k++ {
+		id := (first + k) % nCold
 		wd, wp := coldCall(id)
 		if id == first {
 			rows = append(rows, []interface{}{id, cd, wd, b2i(cp), b2i(wp)})
